@@ -461,6 +461,8 @@ var directed = map[string][]string{
 	},
 	"S1002": {
 		"return x < ti(1, y) == false",
+		"return tb(1, p) != true",
+		"if false == !tb(1, q) {\n\t\treturn 1\n\t}\n\treturn 2",
 		"return x != y == true",
 		"return p == q == false",
 	},
@@ -489,6 +491,7 @@ var directed = map[string][]string{
 	"QF1005": {
 		"return math.Pow(fx*1.1, 2)",   // x*y*x*y is not (x*y)*(x*y) in floating point
 		"return math.Pow(fy*0.7, 3)",
+		"return math.Pow(tf(1, fx), 2)", // side-effecting operand: must not be duplicated
 	},
 	"QF1012": {
 		"mkw().Write([]byte(fmt.Sprintf(\"%d\", ti(1, x))))\n\treturn nil",
